@@ -109,3 +109,10 @@ func init() {
 			Benign: true})
 	}
 }
+
+func init() {
+	for _, p := range []string{"C02", "C05", "C11"} {
+		addVariants(variant{Prop: p, Name: "benign-second-token-to-int-map-in-the-parser-" + p, File: "parser/parser.go",
+			Old: "\tprecedences map[token.Type]int\n", New: "\tprecedences map[token.Type]int\n\tarity       map[token.Type]int\n", Benign: true})
+	}
+}
